@@ -401,3 +401,45 @@ def plan_c13():
 
 
 PLANS["C13"] = plan_c13()
+
+PLANS["C16"] = plan_core("C16", "c16", "cache loads as reads in the history + ledger accounting of the retained value",
+                         required=["cache.loads", "cache.loads_mapped", "cache.loads_that_observed_a_change", "cache.cloned", "load.fallback_confirmed"])
+PLANS["C16"]["rule"] = CORE_RULE + (" Profile c16: about 3 of 8 operations are Cache::load on a per-thread cache (plain, mapped or a clone) of a container that other "
+                                     "threads store into (fresh values, the same value again, None); each cache load is recorded as a read of the container with SeqCst stamps.")
+
+
+def plan_c17():
+    def jobs(tier, seed):
+        return [
+            {"name": "C17.access.token", "flavour": "native", "args": ["access", "mode=token", "execs=%d" % T(tier, 6000, 400000)], "shards": 4, "threads": 4, "timeout": 2400},
+            {"name": "C17.access.free", "flavour": "native", "args": ["access", "mode=free", "execs=%d" % T(tier, 3000, 200000)], "shards": 3, "threads": 5, "timeout": 2400},
+            {"name": "C17.access.free.asan", "flavour": "asan", "args": ["access", "mode=free", "execs=%d" % T(tier, 1500, 100000)], "shards": 3, "threads": 5, "timeout": 2400},
+            {"name": "C17.access.miri", "flavour": "miri", "args": ["access", "mode=free", "execs=%d" % T(tier, 2, 3)], "miri_seeds": T(tier, 8, 128), "timeout": 1500},
+        ]
+
+    def ev(merged, results):
+        c = merged["counters"]
+        return {"projection_guards_by_chain": {k[len("access.chain."):]: v for k, v in c.items() if k.startswith("access.chain.")},
+                "histories_checked": c.get("histories.linearizable", 0)}
+
+    def req(merged):
+        c = merged["counters"]
+        names = [k for k in c if k.startswith("access.chain.")]
+        return [] if len(names) >= 12 else ["only %d of the 12 projection chains were exercised" % len(names)]
+    return {
+        "level": "exploration",
+        "jobs": jobs,
+        "rule": ("One evaluation = one seeded execution: 1-2 writers store fresh nested roots into one container while 1-3 readers load through one of 12 projection "
+                 "chains (plain load, direct deref, through Arc, Map depth 1-3 incl. through an inner Arc / Box / &, Box<dyn DynAccess>, AccessConvert, Arc<dyn>, identity "
+                 "projection, Map over Constant), keep up to 6 projection guards (each moved into a box after creation), re-check all of them after every operation "
+                 "and drop them in random order; loads are recorded as reads of the container and linearized against the stores; at the end all chains are compared on the "
+                 "quiet container. TOKEN-scheduled, free-running, under ASan and Miri. All executions are non-trivial (stores overlap held guards); distinct = distinct "
+                 "schedule trace (TOKEN) / seed (free)."),
+        "evidence": ev,
+        "required": req,
+        "assumptions": ["Root values carry a drop flag outside the value and poison their ids in the destructor, so a projection guard that outlives its snapshot is seen without relying on the sanitizer; ASan / Miri decide the memory accesses proper."],
+        "min_evaluations": {"quick": 5000, "thorough": 300000},
+    }
+
+
+PLANS["C17"] = plan_c17()
